@@ -95,3 +95,28 @@ where
     }
 //@ end
 }
+
+impl<N, E, Ty, Ix> Graph<N, E, Ty, Ix>
+where
+    Ty: EdgeType,
+    Ix: IndexType,
+{
+//@ item src/graph_impl/mod.rs | impl<N, E, Ty, Ix> Graph<N, E, Ty, Ix> where Ty: EdgeType, Ix: IndexType | fn into_edge_type
+    /// Convert the graph into either undirected or directed. No edge adjustments
+    /// are done, so you may want to go over the result to remove or add edges.
+    pub fn into_edge_type<NewTy>(self) -> (r: Graph<N, E, NewTy, Ix>)
+    where
+        NewTy: EdgeType,
+        /*+*/ensures r.nodes@ == self.nodes@, r.edges@ == self.edges@,     // [into_edge_type_keeps_everything]
+            self.wf() ==> r.wf() && r.view() == self.view()/*-*/
+    {
+        /*+*/let r = {/*-*/ Graph {
+            nodes: self.nodes,
+            edges: self.edges,
+            ty: PhantomData,
+        } /*+*/};
+        proof { if self.wf() { assert(r.wf_with(self.outs(), self.inns())); r.lemma_wf_unique(self.outs(), self.inns()); assert(r.node_ws() =~= self.node_ws()); assert(r.edge_ps() =~= self.edge_ps()); } }
+        r/*-*/
+    }
+//@ end
+}
